@@ -1,6 +1,7 @@
 (** Properties/C17.v — "Bytes before the header do not change what is read".
     Only statements, each closed by [exact] of a lemma proved in XRef/. *)
 From PdfV Require Import Base.Prelude Gen.Generated XRef.Model XRef.Spec XRef.HeaderProofs XRef.FrontProofs.
+Set Warnings "-notation-overridden".   (* also ends the import list for the dependency scanner of tools/vplib *)
 
 (** A marker without proper border (no proper suffix is a prefix) cannot straddle the end of a prefix
     that does not contain it: its first occurrence in prefix ++ s is at |prefix|. *)
